@@ -38,7 +38,9 @@ def main(argv=None):
             print("REPLAY: no violation reproduced")
         return 1 if acc.violations else 0
     specs = mod.shards(a.tier, seed)
-    timeout = getattr(mod, "SHARD_TIMEOUT", {"quick": 240, "thorough": 1500})[a.tier]
+    # (the hostile-neighbourhood modes of rounds 12/13 roughly tripled the decoding work: the watchdog budgets, which only
+    # matter when something hangs, are doubled)
+    timeout = getattr(mod, "SHARD_TIMEOUT", {"quick": 240, "thorough": 1500})[a.tier] * float(os.environ.get("VERIF_TIMEOUT_SCALE", "2"))
     from . import harvest
     harvest.preload()          # constants of the tree under test, parsed once here and inherited by the forked shards
     opt_dump = os.environ.get("VERIF_OPT_PASS_DUMP")
